@@ -288,6 +288,12 @@ def _logits_mask_order(check: Check, ev: FuncInfo, ff: FuncFlow):
         continue
       operand = a.value if isinstance(a, ast.AugAssign) else a.value
       if _refs_logits_mask(ff, operand):
+        tamper = [y for y in ff.deep_walk(operand) if isinstance(y, ast.Call) and (ff.ext(y.func) or '').split('.')[-1] in (
+            'nan_to_num', 'clip', 'maximum', 'minimum', 'where', 'tanh')]
+        if tamper:
+          check.ob('R-ORDER.logits-mask', ev, txt(tamper[0])[:60], False,
+                   'the configured logits mask is altered before it is added (-inf made finite): a masked class with a large enough '
+                   'logit is ranked again', node=tamper[0], exact=True)
         tgt = a.target if isinstance(a, ast.AugAssign) else a.targets[0]
         if isinstance(tgt, ast.Name):
           aug = (n, tgt.id)
